@@ -1,7 +1,12 @@
 #!/bin/sh
-# sweep.sh <tier> <seed>... : run every check, print id seed exit-code wall
+# sweep.sh <tier> <seed>... : run every check, print id seed exit-code wall.
+# Runs the checks of the tree this script lies in (under `vp run` that is the snapshot of the commit), against
+# $VP_RUN_REPO when `vp run --with-repo` provided a snapshot of /repo's HEAD, else against /repo itself.
 T=$1; shift
-cd /verif
+HERE="$(cd "$(dirname "$0")/.." && pwd)"
+cd "$HERE" || exit 2
+if [ -n "$VP_RUN_REPO" ]; then export VERIF_REPO="$VP_RUN_REPO"; fi
+echo "sweep: checks of $HERE against ${VERIF_REPO:-/repo}"
 for s in "$@"; do
   for i in 01 02 03 04 05 06 07 08 09 10 11 12 13 14 15 16 17 18 19 20; do
     st=$(date +%s)
